@@ -68,7 +68,13 @@ class QFn:
         self.needs_check = "self.is_check" in src or any(f.needs_check and ("self.%s(" % f.name) in src for f in tr.fns.values())
         self.mut_legs = self.mut_legs or any(f.mut_legs and ("self.%s(" % f.name) in src for f in tr.fns.values())
         if self.needs_check: self.params.insert(1 if self.needs_legs else 0, ("self_is_check", "bool"))
-        if self.mutator and self.mut_legs:
+        self.needs_delayed = "self.delayed_vertices" in src
+        if self.needs_delayed: self.params.insert(0, ("self_delayed", "list"))
+        if self.needs_delayed and self.mutator:
+            self.retnames = ["self_delayed"]; self.ret = ["list"]
+        elif self.needs_delayed and r == "list[PauliString]":
+            self.ret = ["list", "list"]          # (the result, self.delayed_vertices afterwards)
+        elif self.mutator and self.mut_legs:
             self.retnames = ["self_legs"]; self.ret = ["legs"]
         elif r == "PauliString | None": self.ret = ["ps"]
         elif r == "PauliString": self.ret = ["ps"]
@@ -101,6 +107,7 @@ class QFn:
         if isinstance(e, ast.Constant) and type(e.value) is int: return "%d" % e.value if e.value >= 0 else "(%d)" % e.value, "int", []
         if isinstance(e, ast.List) and not e.elts: return "(@nil pstr)", "list", []
         if ast.unparse(e) == "self.legs" and "self_legs" in env: return "v_self_legs", "legs", []
+        if ast.unparse(e) == "self.delayed_vertices" and "self_delayed" in env: return "v_self_delayed", "list", []
         if isinstance(e, ast.UnaryOp) and isinstance(e.op, ast.USub) and isinstance(e.operand, ast.Constant) and type(e.operand.value) is int: return "(-%d)" % e.operand.value, "int", []
         if isinstance(e, ast.List) and len(e.elts) == 1:
             c, t, g = self.expr(e.elts[0], env)
@@ -118,6 +125,7 @@ class QFn:
             return "(concat %s)" % c, "list", g
         if isinstance(e, ast.Subscript) and not isinstance(e.slice, ast.Slice) and not (isinstance(e.slice, ast.Constant) and e.slice.value == 0):
             c, t, g = self.expr(e.value, env); i, ti, gi_ = self.expr(e.slice, env)
+            if t == "list" and ti == "int": return "(list_get (@nil pl) %s %s)" % (c, i), "ps", g + gi_ + [("(idx_ok %s %s)" % (c, i), "FRaised EIndex")]
             if t != "legs" or ti != "int": bad(e, "subscript of %s by %s" % (t, ti))
             return "(list_get (@nil pstr) %s %s)" % (c, i), "list", g + gi_ + [("(idx_ok %s %s)" % (c, i), "FRaised EIndex")]
         if isinstance(e, ast.Call) and isinstance(e.func, ast.Attribute) and not e.keywords:
@@ -283,6 +291,7 @@ class QFn:
                 return "(fold_left (fun (o_ : fres (list pstr)) (v_%s : pstr) => match o_ with FRet acc_ => %s %s) %s (FRet (@nil pstr)))" % (
                     x, self.branch(lc.generators[0].ifs[0], benv, "(FRet (acc_ ++ [v_%s]))" % x, "(FRet acc_)"), PROP, it)
             c, t, g = self.expr(s.value, env)
+            if self.needs_delayed and self.ret == ["list", "list"] and t == "list": return self.guard(g, "(FRet (%s, v_self_delayed))" % c)
             if [t] != self.ret: bad(s, "returned type %s" % t)
             return self.guard(g, "(FRet %s)" % c)
         if isinstance(s, ast.If) and not s.orelse and len(s.body) == 1 and isinstance(s.test, ast.Compare) and isinstance(s.test.ops[0], ast.Is) and isinstance(s.test.left, ast.Name) \
@@ -317,6 +326,15 @@ class QFn:
             if (tL, tx, td) != ("list", "ps", "int") or gL or gx or gd or env.get(nm, "int") != "int": bad(s, "try around index")
             env2 = dict(env); env2[nm] = "int"
             return "(let v_%s := (match Collection.find %s %s with Some k_ => Z.of_nat k_ | None => %s end) in %s)" % (nm, x, L, d, R(env2))
+        if isinstance(s, ast.Expr) and isinstance(s.value, ast.Call) and isinstance(s.value.func, ast.Attribute) and ast.unparse(s.value.func.value) == "self.delayed_vertices" \
+           and s.value.func.attr == "append" and len(s.value.args) == 1 and "self_delayed" in env:
+            x, tx, gx = self.expr(s.value.args[0], env)
+            if tx != "ps": bad(s, "append of %s" % tx)
+            return self.guard(gx, "(let v_self_delayed := v_self_delayed ++ [%s] in %s)" % (x, R(env)))
+        if isinstance(s, ast.Assign) and len(s.targets) == 1 and ast.unparse(s.targets[0]) == "self.delayed_vertices" and "self_delayed" in env:
+            c, t, g = self.expr(s.value, env)
+            if t != "list": bad(s, "self.delayed_vertices = %s" % t)
+            return self.guard(g, "(let v_self_delayed := %s in %s)" % (c, R(env)))
         if isinstance(s, ast.Delete) and len(s.targets) == 1 and isinstance(s.targets[0], ast.Subscript) and ast.unparse(s.targets[0].value) == "self.legs" and "self_legs" in env:
             i, ti, gi_ = self.expr(s.targets[0].slice, env)
             if ti != "int": bad(s, "del by %s" % ti)
@@ -537,7 +555,8 @@ class QFn:
         return None
 
     def call_args(self, fn, v, env):
-        fparams = [p_ for p_ in fn.params if p_[0] not in ("self_legs", "self_is_check")]
+        fparams = [p_ for p_ in fn.params if p_[0] not in ("self_legs", "self_is_check", "self_delayed")]
+        if fn.needs_delayed: bad(v, "call of a method that uses self.delayed_vertices")
         missing = fn.optional is not None and len(v.args) == len(fparams) - 1
         if len(v.args) != len(fparams) and not missing: bad(v, "arity of %s" % fn.name)
         cs, gs = ([self.fuelname] if fn.fuel else []), []
@@ -591,7 +610,7 @@ class QFn:
 class QueueTranslator:
     WANT = ["_get_anti_commutates", "_get_max_connected", "_append_to_queue", "_get_queue",
             "is_empty_legs", "get_vertices", "_gen_one_legs", "get_one_vertices", "check_dependency_one_leg",
-            "_find_in_leg", "find", "is_included", "append", "remove", "replace", "is_empty", "get_center", "append_to_center", "get_lits", "lit", "get_pq"]
+            "_find_in_leg", "find", "is_included", "append", "remove", "replace", "is_empty", "get_center", "append_to_center", "get_lits", "lit", "get_pq", "append_delayed", "restore_delayed"]
     HEADER = """(* GENERATED by tools/py2coq.py (py2coq_queue.py) from src/paulie/classifier/morph_factory.py — do not edit *)
 From PauLieRefine Require Import PySem.
 From PauLie Require Import Pauli Collection.
